@@ -1,2 +1,3 @@
 import Paroxy.Props.C08
 import Paroxy.Props.C11
+import Paroxy.Props.C14
